@@ -421,7 +421,7 @@ def translate_fragment(src_text: str, spec: dict) -> str:
         if len(stmts) != 1:
             raise TranslateError(f"kind={spec['kind']} needs exactly one statement")
         picked = []
-        for node in ast.walk(stmts[0]):
+        for node in ast.walk(getattr(stmts[0], spec["scope"]) if spec.get("scope") in ("test", "iter", "value", "target") else stmts[0]):
             if spec["kind"] == "callarg" and isinstance(node, ast.Call) and re.fullmatch(spec["call"], ast.unparse(node.func), re.S):
                 a = spec["arg"]
                 if a == "@name":
@@ -465,7 +465,7 @@ def translate_fragment(src_text: str, spec: dict) -> str:
             for ch in ast.iter_child_nodes(node):
                 _visit(ch)
 
-        _visit(stmts[0])
+        _visit(getattr(stmts[0], spec["scope"]) if spec.get("scope") in ("test", "iter", "value", "target") else stmts[0])   # scope: only that part of the statement
         if not hits or len({ast.unparse(h) for h in hits}) != 1:  # several textually identical occurrences are one expression
             raise TranslateError(f"pick pattern {spec['pick']!r} matched {len(hits)} sub-expressions")
         if "names" in spec:
